@@ -66,7 +66,7 @@ def regenerate():
     if rc != 0:
         return False, "extractor build failed:\n" + out
     for f in os.listdir(gen):
-        if f.endswith(".lean"):
+        if f.endswith(".lean") or f.endswith(".json"):
             os.remove(os.path.join(gen, f))
     rc, out = run([ex, "-repo", REPO, "-out", gen])
     return rc == 0, out
